@@ -294,10 +294,12 @@ type FuncContract struct {
 	HasMod   bool     // a "modifies" clause was given (possibly "nothing")
 	Loops    map[int]*LoopAnn
 	Panics   *Clause // "panics when C"
+	PanicsOnly bool  // "panics only when C": C is necessary for a panic, not sufficient
 	Replay   []string
 	Imports  []string // extra imports for the replay test
 	Inline   bool   // never use as a call contract; inline at call sites
 	Trusted  bool   // contract is assumed, body is not verified
+	PerReturn bool  // check postconditions and frame at every return separately
 	Splits   []Split
 	File     string
 	Line     int
@@ -384,7 +386,7 @@ func (cs *ContractSet) parseFile(path, pkg string) error {
 	}
 	var items []item
 	keywords := map[string]bool{"func": true, "lemma": true, "requires": true, "ensures": true, "modifies": true,
-		"loop": true, "let": true, "panics": true, "replay": true, "import": true, "inline": true, "trusted": true,
+		"loop": true, "let": true, "panics": true, "replay": true, "import": true, "inline": true, "trusted": true, "perreturn": true,
 		"split": true, "mayalias": true, "assume": true, "define": true, "fileguard": true, "hint": true, "qfonly": true}
 	for i, ln := range strings.Split(string(data), "\n") {
 		t := strings.TrimSpace(ln)
@@ -643,8 +645,13 @@ func (cs *ContractSet) parseFile(path, pkg string) error {
 				}
 			case "panics":
 				t := strings.TrimSpace(it.text)
+				if strings.HasPrefix(t, "only when") {
+					// 'panics only when C': a panic implies C, but C does not force a panic
+					cur.PanicsOnly = true
+					t = strings.TrimSpace(t[5:])
+				}
 				if !strings.HasPrefix(t, "when") {
-					return fmt.Errorf("%s:%d: expected 'panics when C'", path, it.line)
+					return fmt.Errorf("%s:%d: expected 'panics [only] when C'", path, it.line)
 				}
 				c, err := mkClause(strings.TrimSpace(t[4:]), it.line)
 				if err != nil {
@@ -681,6 +688,8 @@ func (cs *ContractSet) parseFile(path, pkg string) error {
 				cur.Inline = true
 			case "trusted":
 				cur.Trusted = true
+			case "perreturn":
+				cur.PerReturn = true
 			case "mayalias":
 				n := splitNames(it.text)
 				if len(n) != 2 {
